@@ -307,3 +307,27 @@ PRINT_Q = dict(scenario='print', args=dict(max_len=24), label='print_js: print_c
 PLANS['C10'] = {'quick': [EXTRACT_Q, CHAIN_Q, PRINT_Q], 'thorough': [EXTRACT_T, CHAIN_T, PRINT_Q]}
 PLANS['C13']['quick'] = PLANS['C13']['quick'] + [PRINT_Q]
 PLANS['C13']['thorough'] = PLANS['C13']['thorough'] + [PRINT_Q]
+
+
+# option defaults / prologue text
+from scenario import ToConfigScenario
+
+_prev_make7 = make_scenario
+
+
+def make_scenario(name, args):
+    if name == 'to_config':
+        return ToConfigScenario()
+    return _prev_make7(name, args)
+
+
+TOCONFIG_Q = dict(scenario='to_config', args={}, label='RewriterConfig::to_config: every Option<bool> in {None, Some(true), Some(false)} x prefix {None, given} x verbosity {None, OFF, off, Debug, MANDATORY, INFORMATION, bogus, ""} (methods absent); and methods {None, [], [2 methods: first with dst/operator/allowedWithoutCallee each None or given, second with dst None or given]} (other options absent); fastrand as a symbolic index, the parser of the prologue stubbed (its input text is checked)')
+PLANS['C05']['quick'] = PLANS['C05']['quick'] + [TOCONFIG_Q]
+PLANS['C05']['thorough'] = PLANS['C05']['thorough'] + [TOCONFIG_Q]
+
+
+# telemetry under every verbosity (count, debug breakdown by tag)
+TELEMETRY_Q = dict(scenario='block_expr', args=dict(policy=expr_profile([OPS + ['Seq'], ['Ident', 'Bin', 'Call', 'Assign', 'Tpl'], ['Ident']], max_args=(1, 1, 0), names=['a'], props=['substring'], bin_ops=['Add'], assign_ops=['AddAssign'], op_budget=3), verbosity=['Off', 'Debug']),
+                   label='operations nested in operations / sequences under verbosity Off and Debug (symbolic): count and per-tag breakdown (+, +=, Tpl, method source name)')
+PLANS['C15']['quick'] = PLANS['C15']['quick'] + [TELEMETRY_Q]
+PLANS['C15']['thorough'] = PLANS['C15']['thorough'] + [TELEMETRY_Q]
